@@ -67,6 +67,7 @@ package utils
 //@ func ReadUint16
 //@ requires rd != nil && 0 <= rd.spos && rd.spos <= rd.sn
 //@ modifies rd.spos, rd.sfault
+//@ ensures [H] old(rd.sgreedy) && old(rd.sfault) == nil ==> rd.sfault == nil
 //@ ensures [P:C09] rd.sfault == nil ==> (result1 == nil <==> old(rd.sn) - old(rd.spos) >= 2)
 //@ ensures [P:C02] result1 == nil ==> (rd.spos == old(rd.spos) + 2 && result0 == ((uint16(rd.sdata[old(rd.spos)]) << 8) | uint16(rd.sdata[old(rd.spos) + 1])))
 //@ ensures [P:C10] result1 == io.EOF ==> rd.sfault == nil
@@ -79,6 +80,7 @@ package utils
 //@ func ReadUint32
 //@ requires rd != nil && 0 <= rd.spos && rd.spos <= rd.sn
 //@ modifies rd.spos, rd.sfault
+//@ ensures [H] old(rd.sgreedy) && old(rd.sfault) == nil ==> rd.sfault == nil
 //@ ensures [P:C09] rd.sfault == nil ==> (result1 == nil <==> old(rd.sn) - old(rd.spos) >= 4)
 //@ ensures [P:C02] result1 == nil ==> (rd.spos == old(rd.spos) + 4 && result0 == ((uint32(rd.sdata[old(rd.spos)]) << 24) | (uint32(rd.sdata[old(rd.spos) + 1]) << 16) | (uint32(rd.sdata[old(rd.spos) + 2]) << 8) | uint32(rd.sdata[old(rd.spos) + 3])))
 //@ ensures [P:C10] result1 == io.EOF ==> rd.sfault == nil
